@@ -114,11 +114,11 @@ void h_chk(void)
 ''',
     proofs=[
         dict(name='chk_str', harness='h_chk_str', replace=['calc_chksum'], solvers=['cadical', 'z3'], timeout=dict(quick=120, thorough=300),
-             properties=['C07'], floor=5, level='proved-modular'),
+             properties=['C07', 'C02'], floor=5, level='proved-modular'),
         dict(name='chk', harness='h_chk', enforce=['calc_chksum'], loop_contracts=True,
              solvers=['cadical', 'z3'], timeout=dict(quick=120, thorough=300),
              # the 8-bit adder-tree equality gsum == G0+G1+G2+G3 is AC-normalised by z3 at once; SAT does not finish
              solver_hints=[(r'loop_invariant_step .*gsum == \(G0', ['z3'])],
-             properties=['C07'], floor=16),
+             properties=['C07', 'C02'], floor=16),
     ],
 )
